@@ -100,6 +100,17 @@ def include(x, p):
         # root, carts next to it in a directory that merely shares its name
         # prefix have their own directory
         hx.set_attr(x, p8, 'PICO8_CART_PATHS', list(p['carts']))
+    if p.get('prior_cwd'):
+        # the same relative cart name was loaded before from another
+        # working directory in this process
+        hx.patch(x, os, 'getcwd', lambda: p['prior_cwd'])
+        try:
+            list(p8.process_includes([b'x=1\n', b'#include a.lua\n'],
+                                     filename=cart))
+        except Exception:
+            pass
+        del rec[:]
+        hx.patch(x, os, 'getcwd', lambda: cwd)
     err = None
     try:
         out = list(p8.process_includes([line], filename=cart))
@@ -168,6 +179,9 @@ HARNESSES = [
                   root='/w/r', carts=['/w/r']),
              dict(Q, n=4, cart='/w/r/c.p8', cwd='/w/r', root='/w/r',
                   carts=['/w/r']),
+             dict(Q, n=3, cart='c.p8', cwd='/w/r', prior_cwd='/w'),
+             dict(Q, n=3, prefix='../', cart='c.p8', cwd='/w/r/s',
+                  root='/w/r/s', prior_cwd='/w/r'),
              # a cart directory literally named "~" (the name reaches picotool
              # unexpanded): the root is that directory, not the home directory
              dict(Q, n=2, prefix='../../', cart='~/c.p8', cwd=HOME + '/w',
@@ -188,7 +202,10 @@ HARNESSES = [
             # sequence (0xff alone, 0xc3 as a lead byte without continuation)
             [dict(Q, n=n, lua_path=None, alphabet='./a\xff\xc3')
              for n in (3, 4)] +
-            [dict(Q, n=3, lua_path='/abs/l/?.lua', alphabet='./a\xff')],
+            [dict(Q, n=3, lua_path='/abs/l/?.lua', alphabet='./a\xff')] +
+            # blanks and tabs around the forbidden characters
+            [dict(Q, n=n, lua_path=lp, alphabet='./a \t')
+             for n in (3, 4) for lp in (None, 'lib/?.lua; ?.lua')],
             thorough=[dict(Q, n=n, lua_path=lp, _budget=3000)
                       for n in (1, 2, 3, 4, 5)
                       for lp in (None, 'lib/?.lua;?/init.lua',
